@@ -219,11 +219,9 @@ func (r *Run) Enabled() []wx.Op {
 					continue
 				}
 				if e.Has&(1<<ci) != 0 {
-					for j := 1; j <= nv; j++ {
-						add(OpSet, S, int8(ci), int8(j), 0)
-					}
-					add(OpWriteGet, S, int8(ci), 2, 0)
-					add(OpWriteQuery, S, int8(ci), 3, 0)
+					add(OpSet, S, int8(ci), 0, 0)
+					add(OpWriteGet, S, int8(ci), 0, 0)
+					add(OpWriteQuery, S, int8(ci), 0, 0)
 				} else if ill {
 					add(OpSet, S, int8(ci), 1, 0)
 				}
